@@ -809,6 +809,19 @@ class CallMixin:
             ),
         )
 
+    def bi_fitness_stores_monotone(self, args, kw, st, node):
+        """two-state spec: every Individual.fitness_store only grows (no sample object needed)"""
+        from .kinds import parse_kind as pk
+
+        d = V(pk("dict[Problem,Fitness]", self.reg.opaque), z3.IntVal(0))
+        return self.bi_dicts_monotone([d], kw, st, node)
+
+    def bi_phenotypes_sticky(self, args, kw, st, node):
+        from .kinds import parse_kind as pk
+
+        o = V(pk("Individual", self.reg.opaque), z3.IntVal(0))
+        return self.bi_field_sticky([o, ops.const("phenotype")], kw, st, node)
+
     def bi_field_sticky(self, args, kw, st, node):
         """two-state spec: field f (given by name) of every object keeps its value once it is not None"""
         old = st.ghost.get("__old__")
